@@ -215,6 +215,70 @@ m("c16-size-not-decremented-on-remove", PL,
             let _ = self.size.fetch_sub(0, Ordering::Relaxed);
         }""", ["C16"])
 
+RL='redis/src/lib.rs'
+RC='redis/src/config.rs'
+m("c17-echo-not-compared", RL,
+"""        if n == ping_number {
+            Ok(())""",
+"""        if n == ping_number || !n.is_empty() {
+            Ok(())""", ["C17"])
+m("c17-ping-counter-stuck", RL,
+"""        let ping_number = self.ping_number.fetch_add(1, Ordering::Relaxed).to_string();""",
+"""        let ping_number = self.ping_number.load(Ordering::Relaxed).to_string();""", ["C17"])
+m("c17-no-unwatch", RL,
+"""            .cmd("UNWATCH")
+            .ignore()
+            .cmd("PING")""",
+"""            .cmd("ECHO")
+            .arg("x")
+            .ignore()
+            .cmd("PING")""", ["C17"])
+m("c19-both-prefers-url", RC,
+"""            (Some(_), Some(_)) => return Err(ConfigError::UrlAndConnectionSpecified),
+        };
+        let pool_config = self.get_pool_config();
+        Ok(Pool::builder(manager).config(pool_config))
+    }
+
+    /// Returns [`deadpool::managed::PoolConfig`]""",
+"""            (Some(url), Some(_)) => crate::Manager::new(url.as_str())?,
+        };
+        let pool_config = self.get_pool_config();
+        Ok(Pool::builder(manager).config(pool_config))
+    }
+
+    /// Returns [`deadpool::managed::PoolConfig`]""", ["C19"])
+m("c19-cluster-first-url-only", 'redis/src/cluster/config.rs',
+"""                urls.iter().map(|url| url.as_str()).collect(),""",
+"""                urls.iter().skip(1).map(|url| url.as_str()).chain(std::iter::once("redis://127.0.0.1:6379")).collect(),""", ["C19"])
+m("c19-password-dropped-on-way-back", RC,
+"""        Self {
+            db: info.db,
+            username: info.username,
+            password: info.password,
+            protocol,
+        }
+    }
+}
+
+#[derive(Debug)]""",
+"""        Self {
+            db: info.db,
+            username: info.username,
+            password: info.password.filter(|p| !p.is_empty()),
+            protocol,
+        }
+    }
+}
+
+#[derive(Debug)]""", ["C19"])
+m("c19-timeouts-skip-nanos", 'src/managed/config.rs',
+"""    /// Timeout when waiting for a slot to become available.
+    pub wait: Option<Duration>,""",
+"""    /// Timeout when waiting for a slot to become available.
+    #[cfg_attr(feature = "serde", serde(skip_serializing_if = "Option::is_none"))]
+    pub wait: Option<Duration>,""", ["C19"])
+
 def run(cmd, **kw):
     return subprocess.run(cmd, shell=True, capture_output=True, text=True, **kw)
 
